@@ -16,6 +16,7 @@ import (
 	"runtime"
 	"strings"
 	"sync"
+	"sync/atomic"
 	"time"
 
 	"kvharness/internal/gen"
@@ -66,8 +67,18 @@ func (r *recorder) String() string {
 	return strings.Join(r.toks, " ")
 }
 
+// After the first scenario in which something stayed blocked the watchdog shrinks, and after a few such scenarios
+// the remaining ones of the run are skipped: a change that hangs the code must cost seconds, not minutes.
+var stuckScenarios int32
+
+func noteStuck()         { atomic.AddInt32(&stuckScenarios, 1) }
+func tooManyStuck() bool { return atomic.LoadInt32(&stuckScenarios) >= 3 }
+
 // watchdog bound for "returns" observations: generous, never hit on a correct tree.
 func watchdog() time.Duration {
+	if atomic.LoadInt32(&stuckScenarios) > 0 {
+		return 700 * time.Millisecond
+	}
 	if s := os.Getenv("VERIF_C09_WATCHDOG_MS"); s != "" {
 		var ms int
 		fmt.Sscanf(s, "%d", &ms)
